@@ -894,6 +894,7 @@ func replay(f lib.Flags) int {
 		Ops        []op     `json:"ops"`
 		Goroutines [][]op   `json:"goroutines"`
 		Overlap    *overlap `json:"overlap"`
+		LateJoin   *int     `json:"late_subscriber_joins_after"`
 	}
 	if err := json.Unmarshal(b, &in); err == nil && in.Overlap != nil {
 		m := lib.NewMonitor("replay", "")
@@ -921,7 +922,12 @@ func replay(f lib.Flags) int {
 	m := lib.NewMonitor("replay", "")
 	if len(in.Ops) > 0 {
 		fmt.Println("initial state:", in.Init.line())
-		obs := runSeqMon(m, in.Init, in.Ops)
+		join := len(in.Ops) / 2
+		if in.LateJoin != nil {
+			join = *in.LateJoin
+			fmt.Println("a second subscriber joins PullModes / PullActiveMode (not updates-only) after", join, "operation(s)")
+		}
+		obs := runSeqMonJoin(m, in.Init, in.Ops, join)
 		for i, st := range obs {
 			fmt.Printf("step %d: %s -> %s %s\n", i, st.Op.line(), st.Out, st.State)
 		}
